@@ -106,7 +106,7 @@ func regenerate(spec TreeSpec, pre *State, trackCompile bool) (*State, []Complai
 		if err != nil {
 			return err
 		}
-		post = &State{Layout: pre.Layout, Cur: pre.Cur, Gen: pre.Cur, Go: readGo(dir)}
+		post = &State{Layout: pre.Layout, Opts: pre.Opts, Cur: pre.Cur, Gen: pre.Cur, Go: readGo(dir)}
 		built := false
 		build := func() (bool, string) {
 			built = true
@@ -143,7 +143,7 @@ func regenerate(spec TreeSpec, pre *State, trackCompile bool) (*State, []Complai
 func buildInitial(spec TreeSpec) (*State, error) {
 	sem <- struct{}{}
 	defer func() { <-sem }()
-	s0 := &State{Layout: spec.Layout, Cur: initialSchema(), Gen: initialSchema(), Go: map[string]string{}}
+	s0 := &State{Layout: spec.Layout, Opts: spec.Opts, Cur: initialSchema(), Gen: initialSchema(), Go: map[string]string{}}
 	err := withProject(s0.projectFiles(), func(dir string) error {
 		genRuns.Add(1)
 		res, err := probe.RunGenerator(dir, dir, "")
@@ -157,7 +157,7 @@ func buildInitial(spec TreeSpec) (*State, error) {
 		edited := 0
 		newFiles := map[string]string{}
 		for p, src := range s0.Go {
-			if !isResolverFile(spec.Layout, p) {
+			if !isResolverFile(spec.Layout, spec.Opts, p) {
 				continue
 			}
 			out, extra, err := userEdit(spec, p, src)
@@ -349,7 +349,7 @@ func (t *Tree) step(d int) error {
 					continue
 				}
 				t.trans++
-				st := &State{Layout: n.St.Layout, Cur: ns, Gen: n.St.Gen, Go: n.St.Go, Compiles: n.St.Compiles, Invalid: n.St.Invalid}
+				st := &State{Layout: n.St.Layout, Opts: n.St.Opts, Cur: ns, Gen: n.St.Gen, Go: n.St.Go, Compiles: n.St.Compiles, Invalid: n.St.Invalid}
 				succ = &Node{St: st, Path: append(append([]string{}, n.Path...), ev.Name)}
 			}
 			h := succ.St.Hash()
@@ -368,6 +368,12 @@ func (t *Tree) step(d int) error {
 // ---------------------------------------------------------------------------------------
 // The plan: which trees, to which depth.
 
+// option values explored besides the defaults
+var (
+	optTypes    = []string{"", "AppRoot", "rootResolver"} // default, custom exported, lower-case first letter
+	optFileTmpl = "res_{name}.go"
+)
+
 func uniform(b string) []string {
 	out := make([]string, len(positions))
 	for i := range out {
@@ -378,14 +384,17 @@ func uniform(b string) []string {
 
 func plan(tier string) []*Tree {
 	var trees []*Tree
-	add := func(layout string, bs []string, ds []string, depth int, events []Event) {
+	add := func(layout string, o Opts, bs []string, ds []string, depth int, events []Event) {
 		track := true
 		for _, d := range ds {
 			if declByName(d).Decls != "" || declByName(d).Twin != "" {
 				track = false
 			}
 		}
-		trees = append(trees, &Tree{Idx: len(trees), Spec: TreeSpec{Layout: layout, Bodies: bs, Decls: ds}, Depth: depth, Events: events, Track: track})
+		if layout == layoutSingle {
+			o.FileTmpl = "" // the option only exists for follow-schema
+		}
+		trees = append(trees, &Tree{Idx: len(trees), Spec: TreeSpec{Layout: layout, Opts: o, Bodies: bs, Decls: ds}, Depth: depth, Events: events, Track: track})
 	}
 	group := func(g string) []string {
 		var out []string
@@ -396,7 +405,7 @@ func plan(tier string) []*Tree {
 		}
 		return out
 	}
-	// mixed-body trees: six consecutive body elements on the six methods, rotated by rot
+	// mixed-body trees: consecutive body elements on the resolver methods, rotated by rot
 	mixed := func(t, rot int) []string {
 		n := len(positions)
 		out := make([]string, n)
@@ -409,43 +418,94 @@ func plan(tier string) []*Tree {
 	layouts := []string{layoutFollow, layoutSingle}
 	all := append(append([]Event{}, baseEvents...), extraEvents...)
 	groups := []string{"decls", "imports", "imports2"}
+
+	// the project dimension: documented options of the resolver: section
+	def := Opts{}
+	exported := Opts{Type: optTypes[1]}
+	lower := Opts{Type: optTypes[2]}
+	omit := Opts{OmitDoc: true}
+	// one option per mixed tree, cyclically
+	mixedOpts := []Opts{exported, lower, omit}
+	// preserve_resolver trees are cheap: nothing is rewritten, two edits suffice
+	var preserveEvents []Event
+	for _, e := range baseEvents {
+		if e.Name == "add-field(Query)" || e.Name == "remove-field(Query.alpha)" {
+			preserveEvents = append(preserveEvents, e)
+		}
+	}
 	if tier == "quick" {
 		// depth 2 on the plain tree of the follow-schema layout, depth 1 everywhere else;
-		// every alphabet element occurs in some tree of either layout
-		add(layoutFollow, uniform("plain"), []string{"none"}, 2, baseEvents)
-		add(layoutSingle, uniform("plain"), []string{"none"}, 1, baseEvents)
+		// every alphabet element and every option value occurs in some tree of either layout
+		add(layoutFollow, def, uniform("plain"), []string{"none"}, 2, baseEvents)
+		add(layoutSingle, def, uniform("plain"), []string{"none"}, 1, baseEvents)
 		for _, l := range layouts {
 			for t := 0; t < nMixed; t++ {
-				add(l, mixed(t, 0), []string{"none"}, 1, baseEvents)
+				add(l, mixedOpts[t%len(mixedOpts)], mixed(t, 0), []string{"none"}, 1, baseEvents)
 			}
-			for _, g := range groups {
-				add(l, uniform("plain"), group(g), 1, baseEvents)
+			// the declaration group refers to the root type and to the Query resolver struct
+			if l == layoutFollow {
+				add(l, Opts{Type: optTypes[1], FileTmpl: optFileTmpl}, uniform("plain"), group("decls"), 1, baseEvents)
+			} else {
+				add(l, lower, uniform("plain"), group("decls"), 1, baseEvents)
 			}
+			add(l, def, uniform("plain"), group("imports"), 1, baseEvents)
+			add(l, def, uniform("plain"), group("imports2"), 1, baseEvents)
+			add(l, Opts{Preserve: true}, uniform("plain"), []string{"helper-func"}, 1, preserveEvents)
 		}
 		return trees
 	}
 	// thorough: depth 3 on the plain trees; depth 2 on the mixed-body trees and on the groups
 	// of harmless declarations / imports; depth 1 (with the extra events) on the rotated
-	// mixed-body trees and on the groups whose elements end in a finding at the first
-	// regeneration anyway; depth 1 on one tree per single alphabet element
+	// mixed-body trees and on imports2; depth 1 on one tree per single alphabet element.
+	// Options: default on the depth-2/3 trees, one non-default option on each rotated mixed
+	// tree, and the full product type x filename_template x omit_template_comment assigned
+	// cyclically to the single-element trees (so every pair of option values occurs);
+	// preserve_resolver with every combination of the other options on cheap trees.
+	var product []Opts
+	for _, ty := range optTypes {
+		for _, ft := range []string{"", optFileTmpl} {
+			for _, om := range []bool{false, true} {
+				product = append(product, Opts{Type: ty, FileTmpl: ft, OmitDoc: om})
+			}
+		}
+	}
 	for _, l := range layouts {
-		add(l, uniform("plain"), []string{"none"}, 3, baseEvents)
+		add(l, def, uniform("plain"), []string{"none"}, 3, baseEvents)
 	}
 	for _, l := range layouts {
 		for t := 0; t < nMixed; t++ {
-			add(l, mixed(t, 0), []string{"none"}, 2, baseEvents)
-			add(l, mixed(t, len(positions)/2), []string{"none"}, 1, all)
+			add(l, def, mixed(t, 0), []string{"none"}, 2, baseEvents)
+			add(l, mixedOpts[t%len(mixedOpts)], mixed(t, len(positions)/2), []string{"none"}, 1, all)
 		}
-		add(l, uniform("plain"), group("decls"), 2, baseEvents)
-		add(l, uniform("plain"), group("imports"), 2, baseEvents)
-		add(l, uniform("plain"), group("imports2"), 1, all)
+		add(l, def, uniform("plain"), group("decls"), 2, baseEvents)
+		add(l, def, uniform("plain"), group("imports"), 2, baseEvents)
+		add(l, def, uniform("plain"), group("imports2"), 1, all)
 	}
+	_ = groups
 	for _, l := range layouts {
+		k := 0
+		next := func() Opts {
+			for {
+				o := product[k%len(product)]
+				k++
+				if l == layoutSingle && o.FileTmpl != "" {
+					continue // same project as without it
+				}
+				return o
+			}
+		}
 		for _, b := range bodies[1:] {
-			add(l, uniform(b.Name), []string{"none"}, 1, baseEvents)
+			add(l, next(), uniform(b.Name), []string{"none"}, 1, baseEvents)
 		}
 		for _, d := range decls[1:] {
-			add(l, uniform("plain"), []string{d.Name}, 1, baseEvents)
+			add(l, next(), uniform("plain"), []string{d.Name}, 1, baseEvents)
+		}
+		for _, o := range product {
+			if l == layoutSingle && o.FileTmpl != "" {
+				continue
+			}
+			o.Preserve = true
+			add(l, o, uniform("plain"), []string{"helper-func"}, 1, preserveEvents)
 		}
 	}
 	return trees
@@ -510,7 +570,7 @@ func replay(file string) {
 		if !ok {
 			die("replay: event %q not enabled", evn)
 		}
-		st = &State{Layout: st.Layout, Cur: ns, Gen: st.Gen, Go: st.Go, Compiles: st.Compiles}
+		st = &State{Layout: st.Layout, Opts: st.Opts, Cur: ns, Gen: st.Gen, Go: st.Go, Compiles: st.Compiles}
 		fmt.Printf("step %d %s\n", i, evn)
 	}
 }
@@ -687,6 +747,7 @@ func main() {
 		"body_alphabet": bn,
 		"package_names_reserved_by_resolver_gotpl_shadowed": templateNames,
 		"declaration_alphabet":                              dn,
+		"resolver_options":                                  map[string]any{"type": []string{"Resolver (default)", optTypes[1], optTypes[2]}, "filename_template": []string{"{name}.resolvers.go (default)", optFileTmpl}, "omit_template_comment": []bool{false, true}, "preserve_resolver": []bool{false, true}},
 		"layouts":                                           []string{layoutFollow, layoutSingle},
 		"closure":                                           "every history is followed by two regenerations",
 		"state_identity":                                    "SHA-256 over layout, current schema files, schema of last generation, hand-editable Go files of the resolver package",
